@@ -450,6 +450,68 @@ fn modseq_history(rng: &mut Rng, base: Vec<TableDef>, tab: &str, col: &str, is_k
     history
 }
 
+/// D. the auto-increment key column `id` of the fixed shape retyped across the integer / non-integer boundary and
+/// back by hand-written migrations (the loader refuses such MODELS, a migration file may still say it), interleaved
+/// with comment changes of the key column and default / nullability changes of its neighbours.  `fixed`: a scripted
+/// sequence of new types for `id`; otherwise random.
+fn autokey_history(rng: &mut Rng, fixed: Option<&[ColumnType]>) -> Vec<MigrationPlan> {
+    let mut history = vec![];
+    let base = modseq_base(rng, true);
+    if !gener::loader_accepts(&base) || !grow(&mut history, &base) {
+        return history;
+    }
+    let pool = vec![
+        ColumnType::Simple(SimpleColumnType::Integer),
+        ColumnType::Simple(SimpleColumnType::BigInt),
+        ColumnType::Simple(SimpleColumnType::SmallInt),
+        ColumnType::Complex(ComplexColumnType::Varchar { length: 36 }),
+        ColumnType::Simple(SimpleColumnType::Uuid),
+        ColumnType::Simple(SimpleColumnType::Text),
+    ];
+    let mut cur = base[0].columns[0].r#type.clone();
+    let mut script: Vec<ColumnType> = fixed.map(|f| f.to_vec()).unwrap_or_default();
+    script.reverse();
+    let steps = if fixed.is_some() { script.len() * 2 } else { rng.range(4, 7) };
+    let mut name_nullable = base[0].columns[1].nullable;
+    for i in 0..steps {
+        let retype = if fixed.is_some() { i % 2 == 0 } else { rng.chance(1, 2) };
+        let a = if retype {
+            let nt = match script.pop() {
+                Some(t) => t,
+                None if fixed.is_some() => break,
+                None => {
+                    let cands: Vec<ColumnType> = pool.iter().filter(|x| **x != cur).cloned().collect();
+                    rng.pick(&cands).clone()
+                }
+            };
+            if nt == cur {
+                continue;
+            }
+            cur = nt.clone();
+            MigrationAction::ModifyColumnType { table: "t".into(), column: "id".into(), new_type: nt, fill_with: None }
+        } else {
+            match rng.range(0, 3) {
+                0 => MigrationAction::ModifyColumnComment { table: "t".into(), column: "id".into(), new_comment: if rng.chance(1, 4) { None } else { Some(rng.pick(&["key", "it's the key"]).to_string()) } },
+                1 => MigrationAction::ModifyColumnDefault { table: "t".into(), column: "n".into(), new_default: Some(rng.pick(&["0", "7"]).to_string()) },
+                _ => {
+                    name_nullable = !name_nullable;
+                    MigrationAction::ModifyColumnNullable { table: "t".into(), column: "name".into(), nullable: name_nullable, fill_with: if name_nullable { None } else { Some("'x'".into()) } }
+                }
+            }
+        };
+        let p = mkplan(history.len() as u32 + 1, vec![a]);
+        if validate_migration_plan(&p).is_err() {
+            continue;
+        }
+        let mut h2 = history.clone();
+        h2.push(p);
+        if schema_from_plans(&h2).is_ok() {
+            history = h2;
+        }
+    }
+    history
+}
+
 fn pick_column(rng: &mut Rng, m: &[TableDef], want_key: bool) -> Option<(String, String, bool)> {
     let mut cands = vec![];
     for t in m {
@@ -619,6 +681,29 @@ fn main() {
             let base = modseq_base(&mut rng, true);
             let h = modseq_history(&mut rng, base, "t", col, is_key, seq);
             emit_history(&mut out, "modseq-enum", hist, &h);
+            hist += 1;
+        }
+    }
+
+    // D. the auto-increment key column retyped across the integer / non-integer boundary and back
+    {
+        use SimpleColumnType::*;
+        let v36 = ColumnType::Complex(ComplexColumnType::Varchar { length: 36 });
+        let st = |t: SimpleColumnType| ColumnType::Simple(t);
+        let scripts: Vec<Vec<ColumnType>> = vec![
+            vec![v36.clone(), st(BigInt)],
+            vec![st(Text), st(SmallInt), st(Uuid), st(Integer)],
+            vec![st(BigInt), v36.clone(), st(Integer), st(SmallInt)],
+            vec![st(Uuid), st(Text), st(BigInt)],
+        ];
+        for sc in &scripts {
+            let h = autokey_history(&mut rng, Some(sc));
+            emit_history(&mut out, "autokey", hist, &h);
+            hist += 1;
+        }
+        for _ in 0..std::cmp::max(6, n_modseq / 3) {
+            let h = autokey_history(&mut rng, None);
+            emit_history(&mut out, "autokey", hist, &h);
             hist += 1;
         }
     }
